@@ -449,6 +449,71 @@ func runC06(c *Check) {
 		}
 	}
 	c.MinInstances("C06-R2", 8)
+	// ---- R9: what is handed to the submitter starts at the watermark. The post-acceptance callback
+	// moves the watermark to the height of the last accepted item, which is sound only if every
+	// earlier pending height was accepted before: the list given to the submitter is the pending
+	// list from its first element (whole, or cut at the upper end). A list cut at the lower end
+	// outside the submitter — the next chunk of a backlog — is submitted although the submitter
+	// returns nil also for a chunk the DA layer did not take (cancellation, attempts used up): the
+	// next accepted chunk then moves the watermark over the one that was skipped.
+	{
+		c.Doc("C06-R9", "VP: on the way from the submission loops to the generic submitter the list of items is never re-sliced with a non-zero lower bound (only the submitter advances it, by the DA layer's accepted count): the watermark is set to the height of the last accepted item, so everything before it must have been offered and accepted first.")
+		n9 := 0
+		for _, loop := range []string{"HeaderSubmissionLoop", "DataSubmissionLoop"} {
+			root := p.MustFunc(mgrM(loop))
+			g := BuildECFG(p, root, ExpandOpts{MaxDepth: 5})
+			c.NoteGraph(g)
+			for _, nd := range g.Nodes {
+				if nd.Kind != NInstr || !g.Live()[nd] {
+					continue
+				}
+				cc := CallCommonOf(nd)
+				if cc == nil || cc.StaticCallee() == nil {
+					continue
+				}
+				isSub := false
+				for _, sub := range subs {
+					if cc.StaticCallee() == sub || (cc.StaticCallee().Origin() != nil && cc.StaticCallee().Origin() == sub.Origin()) {
+						isSub = true
+					}
+				}
+				if !isSub {
+					continue
+				}
+				// the items argument: the slice-typed one
+				for i, a := range cc.Args {
+					if _, isSl := a.Type().Underlying().(*types.Slice); !isSl {
+						continue
+					}
+					if _, isBytes := a.Type().Underlying().(*types.Slice).Elem().Underlying().(*types.Basic); isBytes {
+						continue
+					}
+					n9++
+					t := ArgTerm(nd, i)
+					var cut *Term
+					t.Walk(func(x *Term) bool {
+						if x.Op == "slice" && len(x.Args) >= 2 {
+							lo := x.Args[1].unconv()
+							if !(lo.Op == "const" && (lo.Name == "_" || strings.HasPrefix(lo.Name, "0"))) && lo.Name != "_" {
+								cut = x
+							}
+						}
+						return true
+					})
+					inst := loop + " ⟂ items offered from the start of the pending list ⟂ " + fnShort(nd.Ctx.Fn)
+					if cut == nil {
+						c.OK("C06-R9", inst, fnName(nd.Ctx.Fn), p.InstrPos(nd.In), "the list handed to the submitter is not cut at its lower end: "+trunc(t.String(), 100), true)
+					} else {
+						c.Bad("C06-R9", inst, fnName(nd.Ctx.Fn), p.InstrPos(nd.In), "the list handed to the submitter can be a remainder cut at its lower end outside the submitter ("+trunc(cut.String(), 120)+"): the submitter returns nil also when the DA layer did not take the previous part (cancellation, attempts used up), so a later part can be accepted first and its post-acceptance callback moves the watermark past heights that were never accepted — they are never submitted, also not after a restart", nil)
+					}
+				}
+			}
+		}
+		if n9 < 2 {
+			c.Unk("C06-R9", "submitter call sites", "", "", fmt.Sprintf("anchor lost: %d calls of the generic submitter reachable from the submission loops", n9))
+		}
+		c.MinInstances("C06-R9", 2)
+	}
 	c.MinInstances("C06-R5", 4)
 
 	// loops return only on ctx.Done
@@ -1358,6 +1423,45 @@ func runC07(c *Check) {
 	c.Doc("C07-R7", "VP+GA: the DA heights stored per block come from the mark of the part they describe: the header's from the header cache, the data's from the data cache (the header's only for a block without transactions).")
 	ruleStoredDAHeightsProvenance(c, p)
 	ruleCachesSavedAfterJoin(c, p, "C07-R8")
+	ruleMarksOnlyForAdmittedItems(c, p, "C07-R9")
+}
+
+// ruleMarksOnlyForAdmittedItems (C07-R9): on a full node the DA-inclusion mark of a block part is
+// the record "this part was observed on the DA layer". What was observed is a blob; it is that
+// part only if its signature verifies under the genesis proposer's key (the header hash does not
+// cover the signature, so a copy of a known header with a garbage signature has the same hash).
+// Every mark set from the DA scan — outside the submitter's own post-acceptance path — is
+// therefore behind the admission facts of the item it names (the C03 sink analysis, applied to
+// the marks): a shortcut for "already seen" hashes lets anyone make the node report a height as
+// DA-included, and finalise it, that the sequencer never published there.
+func ruleMarksOnlyForAdmittedItems(c *Check, p *Prog, rule string) {
+	c.Doc(rule, "FS+GA: every DA-inclusion mark set on the DA scanning path (not the submitter's own acceptance path) is reachable only under the signature verification of the marked item under its own key and the binding of that key to the genesis proposer (the header hash does not cover the signature: a copy with a broken signature hashes the same).")
+	root := p.MustFunc(mgrM("RetrieveLoop"))
+	g := BuildECFG(p, root, ExpandOpts{MaxDepth: 7})
+	c.NoteGraph(g)
+	n := 0
+	for _, nd := range g.Select(func(x *Node) bool { si := classifySink(x); return si != nil && si.what == "SetDAIncluded" }) {
+		if inSubmitter(nd) {
+			continue
+		}
+		si := classifySink(nd)
+		n++
+		inst := "RetrieveLoop ⟂ " + si.kind + " mark in " + fnShort(nd.Ctx.Fn)
+		if si.item == nil {
+			c.Unk(rule, inst, fnName(nd.Ctx.Fn), p.InstrPos(nd.In), "cannot identify the item whose hash is marked")
+			continue
+		}
+		verified, bound, _, key, _, _ := sinkAdmission(p, g, nd, si)
+		if verified && bound {
+			c.OK(rule, inst, fnName(nd.Ctx.Fn), p.InstrPos(nd.In), "the mark is set only for an item verified under "+trunc(key, 60)+", bound to the genesis proposer", true)
+		} else {
+			c.Bad(rule, inst, fnName(nd.Ctx.Fn), p.InstrPos(nd.In), fmt.Sprintf("a DA-inclusion mark is set for a blob that was not verified under the genesis proposer's key on every path (verified=%v, key bound to genesis=%v): a copy of a known header / data with a broken signature has the same hash, is recorded as that part's DA publication, and the DA-included height and the finalisation move to a height whose part was never published on the DA layer", verified, bound), nil)
+		}
+	}
+	if n == 0 {
+		c.Unk(rule, "RetrieveLoop ⟂ marks", fnName(root), "", "anchor lost: no DA-inclusion mark set on the scanning path")
+	}
+	c.MinInstances(rule, 2)
 }
 
 // ruleStoredDAHeightsProvenance (C07-R7): in the function that stores the per-block DA heights
